@@ -160,10 +160,13 @@ def fsweep (tape : Array (Op R)) (index : Nat) : Outcome (Array R) := Id.run do
     let i := n - 1 - k
     let op := tape.getD i ⟨0, 0, 0, 0⟩
     let derivative := d.getD i 0
-    if op.leftParent ≥ n then return .panic .index
-    d := d.set! op.leftParent (d.getD op.leftParent 0 + derivative * op.leftDerivative)
-    if op.rightParent ≥ n then return .panic .index
-    d := d.set! op.rightParent (d.getD op.rightParent 0 + derivative * op.rightDerivative)
+    -- a parent that is the entry itself is skipped (F-19)
+    if op.leftParent ≠ i then
+      if op.leftParent ≥ n then return .panic .index
+      d := d.set! op.leftParent (d.getD op.leftParent 0 + derivative * op.leftDerivative)
+    if op.rightParent ≠ i then
+      if op.rightParent ≥ n then return .panic .index
+      d := d.set! op.rightParent (d.getD op.rightParent 0 + derivative * op.rightDerivative)
   return .ok d
 
 /-- `Prog.grad env prog i` on arrays: one forward pass -/
